@@ -62,6 +62,7 @@ type Monitors struct {
 	reportedCfg  map[int]string    // per node: latest configuration reported at the latest quiescent point
 	electCommit  map[[2]int]uint64 // commit index of a server at the instant it became leader
 	convFlagged  bool
+	convWriteOK  bool
 	convReached  bool
 	isSeen       map[string]*isRec
 	restores     []*restoreRec
